@@ -58,16 +58,23 @@ def main(argv):
             # checker self-validation: every recorded one-instance mutation must be detected on a scratch copy,
             # every recorded behaviour-preserving edit must stay quiet
             import subprocess, re
-            for corpus in ("mutants", "benign"):
-                if not os.path.exists(os.path.join(cdb.VERIF, corpus, pid + ".json")):
-                    continue
+            for corpus in ("mutants", "benign", "seeded"):
                 env = dict(os.environ, VERIF_CORPUS=corpus, VERIF_NO_SELFTEST="1")
-                r = subprocess.run([sys.executable, os.path.join(cdb.VERIF, "tools", "mutants.py"), pid], capture_output=True, text=True, env=env)
-                m = re.search(r"(\d+) mutants run, (\d+) missed", r.stdout)
-                ran, missed = (int(m.group(1)), int(m.group(2))) if m else (0, 1)
-                rep.notes.append("self-validation on scratch copies (%s corpus): %d run, %d %s" % (corpus, ran, missed, "missed" if corpus == "mutants" else "false alarms"))
+                if corpus == "seeded":
+                    if not glob.glob(os.path.join(cdb.VERIF, "seeded", pid + "-*", "patch.diff")):
+                        continue
+                    r = subprocess.run([sys.executable, os.path.join(cdb.VERIF, "tools", "seeds.py"), pid, "-j", "2"], capture_output=True, text=True, env=env)
+                else:
+                    if not os.path.exists(os.path.join(cdb.VERIF, corpus, pid + ".json")):
+                        continue
+                    r = subprocess.run([sys.executable, os.path.join(cdb.VERIF, "tools", "mutants.py"), pid], capture_output=True, text=True, env=env)
+                m = re.search(r"(\d+) (?:mutants|seeds) run, (\d+) missed(?:, (\d+) skipped)?", r.stdout)
+                ran, missed, skipped = (int(m.group(1)), int(m.group(2)), int(m.group(3) or 0)) if m else (0, 1, 0)
+                rep.notes.append("self-validation on scratch copies (%s corpus): %d run, %d %s, %d skipped (pattern no longer in the tree)" % (
+                    corpus, ran, missed, "false alarms" if corpus == "benign" else "missed", skipped))
                 rep.stats["selfcheck_%s_run" % corpus] = ran
                 rep.stats["selfcheck_%s_failed" % corpus] = missed
+                rep.stats["selfcheck_%s_skipped" % corpus] = skipped
                 if missed:
                     selfcheck_failed = True
                     print(r.stdout[-1500:])
